@@ -38,6 +38,7 @@ type scenario struct {
 	SlowWrites    bool     `json:"slow_transport_writes,omitempty"`
 	LastWrite     bool     `json:"write_in_flight_at_conn_close,omitempty"`
 	OutagePending []string `json:"calls_started_during_the_outage,omitempty"`
+	CallBurst     int      `json:"incoming_calls_sent_just_before_close,omitempty"`
 	SlowLog       string   `json:"slow_logger_at,omitempty"`
 	SlowLogMs     int      `json:"slow_logger_ms,omitempty"`
 }
@@ -58,6 +59,9 @@ func gen(r *rand.Rand) scenario {
 	s.Closers = []int{1, 1, 2, 4}[r.Intn(4)]
 	s.SlowWrites = false // virtual delays inside transport.Write stall a bubble as soon as another goroutine waits for a lock the writer holds (mutex waits are not durably blocking): the slow-write schedule runs in real time, see TestC10DisconnectLast
 	s.LastWrite = r.Intn(2) == 0
+	if r.Intn(3) == 0 {
+		s.CallBurst = 10 + r.Intn(30) // more than the 8-slot hand-over queues of the wire connection hold
+	}
 	if s.Outage != "none" && s.Outage != "link-dead-undetected" {
 		for _, k := range outagePendingKinds {
 			if r.Intn(3) == 0 {
@@ -475,6 +479,17 @@ func run(s scenario) vrun.Result {
 			c()
 		}
 	}
+	// a burst of end-to-end calls from the peer that is still in the transport when Close stops the call dispatcher
+	if s.CallBurst > 0 {
+		if blc := w.B.CurrentLink(); blc != nil {
+			for k := 0; k < s.CallBurst; k++ {
+				blc.Send(&message.DownstreamCall{CallID: fmt.Sprintf("burst%d", k), SourceNodeID: "src", Name: "n", Type: "t", Payload: []byte("c")})
+				if k%2 == 0 {
+					blc.Send(&message.DownstreamCall{CallID: fmt.Sprintf("burst-reply%d", k), RequestCallID: "nobody", SourceNodeID: "src", Name: "n", Type: "t", Payload: []byte("c")})
+				}
+			}
+		}
+	}
 	// connection close, possibly from several goroutines at once
 	dialsBefore := w.Net.Dials()
 	var cwg sync.WaitGroup
@@ -676,7 +691,7 @@ func run(s scenario) vrun.Result {
 		return vrun.Violation("library goroutines survive although the connection is closed, the peer is gone and 5 virtual minutes have passed", "goroutine-leak:"+key,
 			map[string]any{"goroutines": sites, "first": left[0].Text, "count": len(left)})
 	}
-	r := vrun.Hold(fmt.Sprintf("%d|%d|%d|%d|%d|%v|%s|%s|%d|%v|%v|%v|%s%d", s.Ups, s.Downs, s.Writes, s.Buffered, s.BufferedCalls, s.Pending, s.Order, s.Outage, s.Closers, s.SlowWrites, s.LastWrite, s.OutagePending, s.SlowLog, s.SlowLogMs), len(ups)+len(downs)+len(s.Pending) > 0)
+	r := vrun.Hold(fmt.Sprintf("%d|%d|%d|%d|%d|%v|%s|%s|%d|%v|%v|%v|%s%d|b%d", s.Ups, s.Downs, s.Writes, s.Buffered, s.BufferedCalls, s.Pending, s.Order, s.Outage, s.Closers, s.SlowWrites, s.LastWrite, s.OutagePending, s.SlowLog, s.SlowLogMs, s.CallBurst), len(ups)+len(downs)+len(s.Pending) > 0)
 	r.Stat("post_close_calls_judged", int64(len(calls)))
 	r.Stat("streams_open_at_conn_close", int64(len(ups)+len(downs)))
 	r.AddSet("outages", s.Outage)
